@@ -183,6 +183,9 @@ pub(crate) fn trace_refcell_borrowed_and_unborrowed() {
         }
         forget_lists(l);
         kani::assert(unsafe { TRACED[0] } == 0, "Trace::trace::RefCell::post::reports_nothing_while_borrowed");
+        // Finalize takes &self of the content: a live SHARED borrow does not stop the forwarding (exactly once)
+        d.finalize();
+        kani::assert(unsafe { FINALIZED[0] } == 1, "Finalize::finalize::RefCell::post::content_finalized_once_while_shared_borrowed");
         core::mem::forget(g);
         reset();
     }
